@@ -1,0 +1,190 @@
+//go:build verif
+
+// Contracts for the deductive verifier in /verif (govc). Comment-only: with the `verif` tag off this file
+// is not compiled, with it on it contributes nothing but these structured comments.
+
+package machine
+
+// ---- spec functions -------------------------------------------------------------------------
+
+//@ sumfold total(s []FundingPart) = val(e.Amount)
+//@ sumfold sumBy(s []FundingPart, a AccountAddress) = e.Account == a ? val(e.Amount) : 0
+//@ define wfParts(s []FundingPart) bool = forall i int :: 0 <= i && i < len(s) ==> s[i].Amount != nil && val(s[i].Amount) >= 0
+
+// ---- MonetaryInt (monetary.go) -----------------------------------------------------------------
+
+//@ func (a *MonetaryInt) Add(b *MonetaryInt) (r *MonetaryInt)
+//@   property C22 C23 C24 C36
+//@   ensures r != nil
+//@   ensures val(r) == (a == nil ? 0 : val(a)) + (b == nil ? 0 : val(b))
+
+//@ func (a *MonetaryInt) Sub(b *MonetaryInt) (r *MonetaryInt)
+//@   property C22 C23 C24 C36
+//@   ensures r != nil
+//@   ensures val(r) == (a == nil ? 0 : val(a)) - (b == nil ? 0 : val(b))
+
+//@ func (a *MonetaryInt) Neg() (r *MonetaryInt)
+//@   property C23 C36
+//@   requires a != nil
+//@   ensures r != nil && val(r) == 0 - val(a)
+
+//@ func (a *MonetaryInt) Gt(b *MonetaryInt) (r bool)
+//@   property C22 C23
+//@   requires a != nil && b != nil
+//@   ensures r == (val(a) > val(b))
+
+//@ func (a *MonetaryInt) Gte(b *MonetaryInt) (r bool)
+//@   property C22 C23
+//@   requires a != nil && b != nil
+//@   ensures r == (val(a) >= val(b))
+
+//@ func (a *MonetaryInt) Lt(b *MonetaryInt) (r bool)
+//@   property C22 C23 C24
+//@   requires a != nil && b != nil
+//@   ensures r == (val(a) < val(b))
+
+//@ func (a *MonetaryInt) Lte(b *MonetaryInt) (r bool)
+//@   property C22 C23
+//@   requires a != nil && b != nil
+//@   ensures r == (val(a) <= val(b))
+
+//@ func (a *MonetaryInt) Ltz() (r bool)
+//@   property C22 C23
+//@   requires a != nil
+//@   ensures r == (val(a) < 0)
+
+//@ func (a *MonetaryInt) Eq(b *MonetaryInt) (r bool)
+//@   property C22 C23
+//@   requires a != nil && b != nil
+//@   ensures r == (val(a) == val(b))
+
+//@ func NewMonetaryInt(i int64) (r *MonetaryInt)
+//@   property C22 C23 C24
+//@   ensures r != nil && val(r) == i
+
+// ---- Funding (funding.go) ----------------------------------------------------------------------
+
+//@ func (f Funding) TakeMax(amount *MonetaryInt) (result Funding, remainder Funding)
+//@   property C22 C23
+//@   requires amount != nil && wfParts(f.Parts)
+//@   ensures total(result.Parts) == min(max(val(amount), 0), total(f.Parts))
+//@   ensures forall a AccountAddress :: sumBy(result.Parts, a) + sumBy(remainder.Parts, a) == sumBy(f.Parts, a)
+//@   ensures wfParts(result.Parts) && wfParts(remainder.Parts)
+//@   ensures result.Asset == f.Asset && remainder.Asset == f.Asset
+//@   loop 1:
+//@     invariant 0 <= i && i <= len(f.Parts)
+//@     invariant remainingToWithdraw != nil
+//@     invariant val(remainingToWithdraw) + total(result.Parts) == val(amount)
+//@     invariant val(remainingToWithdraw) >= 0 || val(remainingToWithdraw) == val(amount)
+//@     invariant val(remainingToWithdraw) > 0 ==> len(remainder.Parts) == 0
+//@     invariant total(result.Parts) + total(remainder.Parts) == total_upto(f.Parts, i)
+//@     invariant total(result.Parts) >= 0 && total(remainder.Parts) >= 0 && len(result.Parts) >= 0 && len(remainder.Parts) >= 0
+//@     invariant forall a AccountAddress :: sumBy(result.Parts, a) + sumBy(remainder.Parts, a) == sumBy_upto(f.Parts, i, a)
+//@     invariant wfParts(result.Parts) && wfParts(remainder.Parts)
+//@     invariant result.Asset == f.Asset && remainder.Asset == f.Asset
+//@     decreases len(f.Parts) - i
+//@   loop 2:
+//@     invariant 0 <= i && i <= len(f.Parts)
+//@     invariant val(remainingToWithdraw) <= 0 || i == len(f.Parts)
+//@     invariant total(result.Parts) + total(remainder.Parts) == total_upto(f.Parts, i)
+//@     invariant total(remainder.Parts) >= 0 && len(remainder.Parts) >= 0
+//@     invariant val(remainingToWithdraw) > 0 ==> len(remainder.Parts) == 0
+//@     invariant forall a AccountAddress :: sumBy(result.Parts, a) + sumBy(remainder.Parts, a) == sumBy_upto(f.Parts, i, a)
+//@     invariant wfParts(remainder.Parts)
+//@     invariant remainder.Asset == f.Asset
+//@     decreases len(f.Parts) - i
+
+//@ func (f Funding) Take(amount *MonetaryInt) (result Funding, remainder Funding, err error)
+//@   property C22 C23
+//@   requires amount != nil && wfParts(f.Parts)
+//@   ensures (err != nil) <==> (val(amount) < 0 || val(amount) > total(f.Parts))
+//@   ensures err != nil ==> isErr(err, ErrInsufficientFund)
+//@   ensures err == nil ==> total(result.Parts) == val(amount)
+//@   ensures err == nil ==> forall a AccountAddress :: sumBy(result.Parts, a) + sumBy(remainder.Parts, a) == sumBy(f.Parts, a)
+//@   ensures err == nil ==> wfParts(result.Parts) && wfParts(remainder.Parts)
+//@   ensures err == nil ==> result.Asset == f.Asset && remainder.Asset == f.Asset
+//@   loop 1:
+//@     invariant 0 <= i && i <= len(f.Parts)
+//@     invariant remainingToWithdraw != nil
+//@     invariant val(remainingToWithdraw) + total(result.Parts) == val(amount)
+//@     invariant val(remainingToWithdraw) >= 0 || val(remainingToWithdraw) == val(amount)
+//@     invariant val(remainingToWithdraw) > 0 ==> len(remainder.Parts) == 0
+//@     invariant total(result.Parts) + total(remainder.Parts) == total_upto(f.Parts, i)
+//@     invariant total(result.Parts) >= 0 && total(remainder.Parts) >= 0 && len(result.Parts) >= 0 && len(remainder.Parts) >= 0
+//@     invariant forall a AccountAddress :: sumBy(result.Parts, a) + sumBy(remainder.Parts, a) == sumBy_upto(f.Parts, i, a)
+//@     invariant wfParts(result.Parts) && wfParts(remainder.Parts)
+//@     invariant result.Asset == f.Asset && remainder.Asset == f.Asset
+//@     decreases len(f.Parts) - i
+//@   loop 2:
+//@     invariant 0 <= i && i <= len(f.Parts)
+//@     invariant val(remainingToWithdraw) <= 0 || i == len(f.Parts)
+//@     invariant total(result.Parts) + total(remainder.Parts) == total_upto(f.Parts, i)
+//@     invariant total(remainder.Parts) >= 0 && len(remainder.Parts) >= 0
+//@     invariant val(remainingToWithdraw) > 0 ==> len(remainder.Parts) == 0
+//@     invariant forall a AccountAddress :: sumBy(result.Parts, a) + sumBy(remainder.Parts, a) == sumBy_upto(f.Parts, i, a)
+//@     invariant wfParts(remainder.Parts)
+//@     invariant remainder.Asset == f.Asset
+//@     decreases len(f.Parts) - i
+
+//@ func (f Funding) Concat(other Funding) (res Funding, err error)
+//@   property C22 C23
+//@   requires wfParts(f.Parts) && wfParts(other.Parts)
+//@   ensures (err != nil) <==> (f.Asset != other.Asset)
+//@   ensures err == nil ==> total(res.Parts) == total(f.Parts) + total(other.Parts)
+//@   ensures err == nil ==> forall a AccountAddress :: sumBy(res.Parts, a) == sumBy(f.Parts, a) + sumBy(other.Parts, a)
+//@   ensures err == nil ==> wfParts(res.Parts) && res.Asset == f.Asset
+//@   note Concat overwrites the last element of the receiver's backing array in place; callers must not use the receiver's Parts afterwards (value semantics for slices; not checked)
+
+//@ func (f Funding) Total() (r *MonetaryInt)
+//@   property C22 C23
+//@   ensures r != nil && val(r) == total(f.Parts)
+//@   loop 1:
+//@     index k
+//@     invariant total != nil && val(total) == total_upto(f.Parts, k)
+
+//@ func (f Funding) Reverse() (r Funding)
+//@   property C22 C23
+//@   ensures r.Asset == f.Asset && len(r.Parts) == len(f.Parts)
+//@   ensures forall j int :: 0 <= j && j < len(f.Parts) ==> r.Parts[j] == f.Parts[len(f.Parts) - 1 - j]
+//@   ensures total(r.Parts) == total(f.Parts)
+//@   ensures forall a AccountAddress :: sumBy(r.Parts, a) == sumBy(f.Parts, a)
+//@   loop 1:
+//@     invariant 0 - 1 <= i && i < len(f.Parts)
+//@     invariant len(newParts) == len(f.Parts) - 1 - i
+//@     invariant forall j int :: 0 <= j && j < len(newParts) ==> newParts[j] == f.Parts[len(f.Parts) - 1 - j]
+//@     invariant total(newParts) == total(f.Parts) - total_upto(f.Parts, i + 1)
+//@     invariant forall a AccountAddress :: sumBy(newParts, a) == sumBy(f.Parts, a) - sumBy_upto(f.Parts, i + 1, a)
+//@     decreases i + 1
+
+// ---- Allotment (allotment.go) ------------------------------------------------------------------
+
+//@ sumfold ratsum(a []big.Rat) real = real(e.num) / real(e.den)
+//@ sumfold floorsum(a []big.Rat, amt int) = (amt * e.num) / e.den
+//@ sumfold share(a []big.Rat, amt int) real = real(amt * e.num) / real(e.den)
+//@ sumfold psum(s []*MonetaryInt) = val(e)
+
+//@ func (a Allotment) Allocate(amount *MonetaryInt) (parts []*MonetaryInt)
+//@   property C24 C36
+//@   requires amount != nil && val(amount) >= 0
+//@   requires forall i int :: 0 <= i && i < len(a) ==> a[i].num >= 0 && a[i].den > 0
+//@   requires ratsum(a) == 1
+//@   ensures len(parts) == len(a)
+//@   ensures psum(parts) == val(amount)
+//@   ensures forall i int :: 0 <= i && i < len(a) ==> parts[i] != nil
+//@   ensures forall i int :: 0 <= i && i < len(a) ==> (val(amount) * a[i].num) / a[i].den <= val(parts[i]) && val(parts[i]) <= (val(amount) * a[i].num) / a[i].den + 1
+//@   ensures 0 <= val(amount) - floorsum(a, val(amount)) && val(amount) - floorsum(a, val(amount)) < len(a)
+//@   ensures forall i int :: 0 <= i && i < len(a) ==> val(parts[i]) == (val(amount) * a[i].num) / a[i].den + (i < val(amount) - floorsum(a, val(amount)) ? 1 : 0)
+//@   loop 1:
+//@     invariant len(parts) == len(a) && totalAllocated != nil
+//@     invariant forall j int :: {parts[j]} 0 <= j && j < i ==> parts[j] != nil && val(parts[j]) == (val(amount) * a[j].num) / a[j].den
+//@     invariant val(totalAllocated) == floorsum_upto(a, i, val(amount))
+//@     invariant psum_upto(parts, i) == floorsum_upto(a, i, val(amount))
+//@     invariant share_upto(a, i, val(amount)) == real(val(amount)) * ratsum_upto(a, i)
+//@     invariant share_upto(a, i, val(amount)) - real(i) <= real(floorsum_upto(a, i, val(amount)))
+//@     invariant real(floorsum_upto(a, i, val(amount))) <= share_upto(a, i, val(amount))
+//@     invariant i > 0 ==> share_upto(a, i, val(amount)) - real(i) < real(floorsum_upto(a, i, val(amount)))
+//@   loop 2:
+//@     invariant len(parts) == len(a) && totalAllocated != nil
+//@     invariant val(totalAllocated) == floorsum(a, val(amount)) + min(i, val(amount) - floorsum(a, val(amount)))
+//@     invariant psum(parts) == val(totalAllocated)
+//@     invariant forall j int :: {parts[j]} 0 <= j && j < len(a) ==> parts[j] != nil && val(parts[j]) == (val(amount) * a[j].num) / a[j].den + ((j < i && j < val(amount) - floorsum(a, val(amount))) ? 1 : 0)
